@@ -8,23 +8,28 @@ CONFIG = {
                 "VProofs/RedactExact.lean"],
     "theorems": [
         "V.C05.keep_tables_eq_spec_partial", "V.C05.keep_tables_v11_member_deviates", "V.C05.algos_ok",
-        "V.C05.redact_exact", "V.C05.redact_idem", "V.C05.redact_preserves_ids", "V.C05.redact_preserves_reference",
+        "V.C05.redact_exact", "V.C05.redact_drops_unlisted", "V.C05.redact_idem", "V.C05.redact_preserves_ids", "V.C05.redact_preserves_reference",
         "V.C05.redact_preserves_signatures", "V.C05.redact_keeps_signatures_member",
     ],
     "rule": "redact.json: bounded-exhaustive 16 versions x 14 event types (every protected type + arbitrary ones) x (all 18 listed "
-            "content keys and 23 neighbour keys at once | one listed key + one neighbour), 59 hand-picked shapes x 16 versions "
-            "(null, non-objects, duplicate / case-variant / long-s keys, null and wrong-typed type/content, merged duplicate "
-            "content, float64 overflow and near-limit literals, -0, 2^53 boundary, third_party_invite shapes), then random events "
-            "(random subsets of kept / dropped / unknown top-level keys, nested values, IntSafe and non-IntSafe numbers, random "
+            "content keys and 23 neighbour keys at once | one listed key + one neighbour), 84 hand-picked shapes x 16 versions "
+            "(null, non-objects, duplicate exact keys incl. an ill-typed earlier duplicate, case variants - ASCII and U+017F - of type, content, "
+            "sender, event_id, state_key, hashes, signatures and the other protected keys, alone and next to the exact key, null and "
+            "wrong-typed type/content, duplicate content (last wins), float64 overflow and near-limit literals, -0, 2^53 boundary, third_party_invite shapes), then random events "
+            "(random subsets of kept / dropped / unknown / case-variant top-level keys, a second case-variant or duplicate member for a protected "
+            "key in 12 %, nested values, IntSafe and non-IntSafe numbers, random "
             "whitespace / escapes / member order, malformed texts); three streams: implementation (CanonicalJSON of "
-            "RedactEventJSON), model (redactJSON), specification (RedactSpec.redact on well-formed events). redact.pdu / pdu_props: "
+            "RedactEventJSON), model (redactJSON), specification (RedactSpec.redact - exact key comparison - on every object without duplicate top-level keys whose type is a "
+            "string and whose content is an IntSafe object: case variants of protected keys are INSIDE the specification stream and must be dropped). redact.pdu / pdu_props: "
             "PDU.Redact() twice on events built with EventBuilder.Build (real ed25519) and on hand-made trusted events; the "
             "property relations (ids, event ID, redacted flag, idempotence, JSON = redaction of the original, signature still "
             "verifies with VerifyJSON) evaluated on the real code. non-trivial = the implementation returned a redacted event",
     "nontrivial": lambda op, impl: impl.startswith("ok:") or impl.startswith("ids="),
     "trusted": COMMON_TRUSTED + [
-        "encoding/json modelled by VModel.Redact: case-folded field matching, members decoded in document order into one field, "
-        "null / type-error rules per Go type, RawJSON pass-through, map merge, float64 overflow = error",
+        "encoding/json modelled by VModel.Redact: exactFieldsOnly = decode into map[string]json.RawMessage (last duplicate wins, values raw, "
+        "null text = empty object, other non-objects = error) restricted to the exact JSON names of the keep struct; then the struct decode "
+        "(case-folded field matching - which now only ever sees exact names, each once -, null / type-error rules per Go type, RawJSON "
+        "pass-through, float64 overflow = error)",
         "json.Marshal followed by CanonicalJSON = encodeCanon of the value (member order / escaping of Marshal irrelevant)",
         "specification tables in VModel/RedactSpec.lean transcribed from memory of the Matrix spec v1.16 room-version pages "
         "(no copy in the sandbox), cross-checked against the quotations in redactevent.go's comments",
@@ -34,9 +39,15 @@ CONFIG = {
         "+-(2^53-1) (at most 16 digits), valid UTF-8, no duplicate keys inside kept content; number literals with decimal exponent "
         "308 are undecided (model answers skip); outside: skip (counted)",
         "texts with ill-formed Unicode or nested duplicate keys are skipped (their canonical form is outside C01's specification)",
-        "redact_exact / redact_preserves_ids are stated for well-formed events (object, no duplicate top-level keys, no case variant "
-        "of a protected key, type a string, content an object without duplicate keys); redact_idem / reference / signatures hold "
-        "for every input on which RedactEventJSON succeeds",
+        "redact_exact / redact_keeps_signatures_member: hypotheses only 'type is a string, content is an object without duplicate keys' "
+        "(WfEvent); the former hypotheses 'no duplicate top-level keys' and 'no case variant of a protected key' (WfTop) are REMOVED - with "
+        "exact key matching a variant is an unlisted key and of duplicates the last counts (lookupExact). redact_drops_unlisted (new, no "
+        "hypothesis): a key other than type/content that the event does not carry as that exact string is not in the redaction. "
+        "redact_idem / reference / signatures hold for every input on which RedactEventJSON succeeds",
+        "redact_preserves_ids keeps the hypothesis WfTop (no duplicate top-level keys, no case variant of a protected key): it compares what "
+        "the EVENT structs (filled by encoding/json, case-insensitively) read before and after; an event whose only sender member is spelt "
+        "'Sender' reads as sent by nobody once redacted (the exact-matching repair trades this for not inventing keys); such events are "
+        "outside the property's words (lenient parsing) and outside the pdu_props specification stream",
         "unstable versions follow the stable version their comment in eventversion.go names (msc3667->v7, msc3787->v9, msc4014->v10, hydra.11->v12)",
         "KNOWN FINDING v11-member-tpi-signed: keep_tables_eq_spec holds except m.room.member under redactEventJSONV5 "
         "(third_party_invite.signed is dropped); full-strength statement kept as a comment next to keep_tables_eq_spec_partial",
